@@ -76,6 +76,11 @@ fn rt_json<V: Serialize + DeserializeOwned + PartialEq>(v: &V, flat: impl Fn(&V)
     match guard(|| -> Result<(Vec<f64>, bool), String> {
         let s = serde_json::to_string(v).map_err(|e| format!("serialize: {}", e))?;
         let w: V = serde_json::from_str(&s).map_err(|e| format!("deserialize: {}", e))?;
+        // the same text through an io::Read source (a file, a socket): no borrowing from the input is possible there
+        let w2: V = serde_json::from_reader(s.as_bytes()).map_err(|e| format!("deserialize from a reader: {}", e))?;
+        if flat(&w2).iter().map(|x| x.to_bits()).ne(flat(&w).iter().map(|x| x.to_bits())) {
+            return Err("deserialize from a reader gives a different value than from a string".to_string());
+        }
         Ok((flat(&w), &w == v))
     }) {
         Ok(r) => r,
@@ -86,6 +91,10 @@ fn rt_cbor<V: Serialize + DeserializeOwned + PartialEq>(v: &V, flat: impl Fn(&V)
     match guard(|| -> Result<(Vec<f64>, bool), String> {
         let s = serde_cbor::to_vec(v).map_err(|e| format!("serialize: {}", e))?;
         let w: V = serde_cbor::from_slice(&s).map_err(|e| format!("deserialize: {}", e))?;
+        let w2: V = serde_cbor::from_reader(&s[..]).map_err(|e| format!("deserialize from a reader: {}", e))?;
+        if flat(&w2).iter().map(|x| x.to_bits()).ne(flat(&w).iter().map(|x| x.to_bits())) {
+            return Err("deserialize from a reader gives a different value than from a slice".to_string());
+        }
         Ok((flat(&w), &w == v))
     }) {
         Ok(r) => r,
@@ -237,6 +246,19 @@ macro_rules! family {
     }};
 }
 
+#[cfg(feature = "borsh")]
+fn failed_serialization(m: &mut Mon) {
+    // borsh refuses NaN: the error itself is documented behaviour and not judged; later round trips are
+    let bad: Piecewise<Poly1> = Piecewise { segments: (0..40).map(|i| Segment { end: i as f64, poly: Poly1([if i == 37 { f64::NAN } else { 1.0 }, 2.0]) }).collect() };
+    let r = guard(|| borsh::to_vec(&bad).is_err());
+    m.count("borsh_serialization_of_nan_attempted");
+    if let Ok(true) = r {
+        m.count("borsh_serialization_of_nan_refused");
+    }
+}
+#[cfg(not(feature = "borsh"))]
+fn failed_serialization(_m: &mut Mon) {}
+
 fn knot(m: &mut Mon, r: &mut Rng) {
     let nums = vec![value(r, false), value(r, false)];
     let v = Knot::from_nums(&nums);
@@ -303,7 +325,7 @@ pub fn run(a: &Args, m: &mut Mon) {
     m.extra.insert("borsh_feature_enabled".into(), json!(cfg!(feature = "borsh")));
     let mut r = Rng::lane(a.seed, "C18", a.shard, if cfg!(feature = "borsh") { 1 } else { 0 });
     let n = a.n(5_000, 250_000);
-    for _ in 0..n {
+    for k in 0..n {
         macro_rules! fam {
             ($t:ident) => {
                 family!(m, &mut r, $t);
@@ -314,5 +336,8 @@ pub fn run(a: &Args, m: &mut Mon) {
         ppv::for_polys!(fam);
         family!(m, &mut r, IntOfLogPoly4);
         knot(m, &mut r);
+        if k % 64 == 5 {
+            failed_serialization(m);
+        }
     }
 }
